@@ -75,11 +75,15 @@ def restamped(rng):
     import evtxmut
     base = fixtures.load("pnp")
     perm = None
-    if rng.random() < 0.5:
+    small = None
+    if rng.random() < 0.3:
+        # a small log: the first 1..78 records of the first chunk only (compresses to a few KiB)
+        base, small = evtxmut.first_records(base, rng.choice((1, 2, 3, 5, 8, 13, 20, 40, 78)))
+    elif rng.random() < 0.5:
         perm = list(range(evtxmut.used_chunks(base)))
         rng.shuffle(perm)
         base = evtxmut.permute_chunks(base, perm)
-    pattern = rng.choice(evtxmut.PATTERNS) + ("" if perm is None else "+chunks%s" % "".join(str(k) for k in perm))
+    pattern = rng.choice(evtxmut.PATTERNS) + ("" if perm is None else "+chunks%s" % "".join(str(k) for k in perm)) + ("" if small is None else "+first%d" % small)
     times = evtxmut.gen_times(rng, evtxmut.records(base), pattern.split("+")[0])
     data = evtxmut.restamp(base, times)
     if rng.random() < 0.3:
@@ -182,6 +186,8 @@ def run_case(seed, i, tier):
             cr.probes["chunks_permuted"] += 1
         if "+stale" in pattern:
             cr.probes["stale_chunk_checksums"] += 1
+        if "+first" in pattern:
+            cr.probes["small_log_first_records_only"] += 1
     rtimes = set(t for (_, _, t) in recs)
     if a in rtimes or b in rtimes:
         cr.probes["bound_exactly_on_a_record_time"] += 1
@@ -236,6 +242,8 @@ def classes_of(rp):
         pat = rp.get("restamp_pattern") or ""
         if "+chunks" in pat:
             base = evtxmut.permute_chunks(base, [int(ch) for ch in pat.split("+chunks")[1].split("+")[0]])
+        if "+first" in pat:
+            base, _ = evtxmut.first_records(base, int(pat.split("+first")[1].split("+")[0]))
         data = evtxmut.restamp(base, rp["times_ns"])
         if "+stale" in pat:
             data = evtxmut.stale_checksums(data, [tuple(int(x) for x in w.split(":")) for w in pat.split("+stale")[1].split(",")])
